@@ -25,6 +25,10 @@ const RSA2: [&[u8]; 3] = [fx!("rsa2048-1.pk8.der"), fx!("rsa2048-2.pk8.der"), fx
 // ("rsa4096" = the larger keys: two of 4096 bits and one of 3072 bits)
 const RSA4: [&[u8]; 3] = [fx!("rsa4096-1.pk8.der"), fx!("rsa4096-2.pk8.der"), fx!("rsa3072-1.pk8.der")];
 
+/// public half (PKCS#1 RSAPublicKey and SubjectPublicKeyInfo, made by openssl) of an 8192-bit RSA key
+pub const RSA8192_PKCS1: &[u8] = fx!("rsa8192-1.pkcs1.der");
+pub const RSA8192_SPKI: &[u8] = fx!("rsa8192-1.spki.der");
+
 pub const FAMILIES: [&str; 6] =
     ["ed25519", "ecdsa", "rsa2048-256", "rsa2048-512", "rsa4096-256", "rsa4096-512"];
 
